@@ -1,4 +1,4 @@
-import TantivyModel.Proofs.Writer
+import TantivyModel.Proofs.WriterRefine
 /-!
 # C02 — A commit publishes exactly the sequential effect of the operations before it
 
@@ -57,6 +57,100 @@ theorem C02_cursor_discipline (first : Nat) (rest : List (DelOp α)) (c : Nat) :
   have := mem_takeWhile_prop hdel
   simp at this
   omega
+
+/-! ## commit = sequential replay -/
+
+/-- the events of a run that need no side condition: everything except `delete_all_documents`
+and merges -/
+def plainEvent : Event α → Bool
+  | .deleteAll => false
+  | .mergeStart _ _ => false
+  | .mergeEnd _ => false
+  | _ => true
+
+theorem okRun_of_plain (s : WState α) (es : List (Event α)) (h : es.all plainEvent = true) : okRun s es := by
+  induction es generalizing s with
+  | nil => trivial
+  | cons e es ih =>
+    simp only [List.all_cons, Bool.and_eq_true] at h
+    refine ⟨?_, fun s' _ _ => ih s' h.2⟩
+    cases e <;> first | trivial | simp [plainEvent] at h
+
+/-- **C02_commit_refines_replay_partial.**  For every number of indexing workers and every event
+sequence `es` of the implementation-level model — API calls interleaved in any way with the
+adversarial internal events: which worker receives which batch (`recv`), when a worker cuts its
+segment (`cut`), when the segment updater registers a finished segment (`register`), when
+`consider_merge_options` draws a stamp (`tick`), when the delete queue is flushed — such that
+  * `delete_all_documents` is issued only in a clean state (`cleanState`: nothing of the current
+    transaction pending and no delete issued by this writer), and
+  * no merge event occurs (`okRun`),
+the documents a fresh searcher shows are, as a multiset, exactly `(replay (history es)).committed`
+(every survivor exactly once), and the documents the next commit would publish are exactly
+`(replay (history es)).pending`.  In particular this holds after every `commit`, `rollback`,
+`abort`, reopen (every prefix of a run is a run).
+
+The statement at full strength (no side condition, merges included) is false in the model as in
+the code: see the five counter-example theorems below.  Merges are covered by the example runs
+and the correspondence harness only; that they are invisible when no delete of a re-created
+writer shares the commit opstamp (F8) is not proved. -/
+theorem C02_commit_refines_replay_partial [DecidableEq α] (n : Nat) (es : List (Event α)) (s : WState α)
+    (hrun : run (WState.init n) es = some s) (hok : okRun (WState.init n) es) :
+    List.Perm (published s) (replay (history es)).committed
+      ∧ List.Perm (live s) (replay (history es)).pending := by
+  have := inv_run (WState.init n) s SpecState.init es (inv_init n) hok hrun
+  exact ⟨this.pub, this.pend⟩
+
+/-- corollary with a purely syntactic hypothesis: runs without `delete_all_documents` and merges -/
+theorem C02_commit_refines_replay_plain [DecidableEq α] (n : Nat) (es : List (Event α)) (s : WState α)
+    (hrun : run (WState.init n) es = some s) (hplain : es.all plainEvent = true) :
+    List.Perm (published s) (replay (history es)).committed :=
+  (C02_commit_refines_replay_partial n es s hrun (okRun_of_plain _ es hplain)).1
+
+/-- the sound core (one logical segment, per-document opstamps, the delete queue, the rule of
+`compute_deleted_bitset` applied at commit): for **every** history, with stamps drawn by
+`consider_merge_options` at any point (`none`), in which `delete_all_documents` is only issued
+while the delete queue of the writer is empty, the published list is exactly — same order —
+the committed list of the sequential replay, and the payload is the one of the last commit. -/
+theorem C02_core_refines_replay (es : List (Option (Op α))) (h : cleanFrom (CState.init : CState α) es) :
+    (crun CState.init es).pub.map (·.1) = (replay (es.filterMap id)).committed
+      ∧ (crun CState.init es).payload = (replay (es.filterMap id)).payload := by
+  have := core_run CState.init SpecState.init es core_init h
+  rw [foldl_specOf] at this
+  exact ⟨this.committed, this.payload⟩
+
+/-- the local steps of the real mechanism compute the rule of the core: on a queue sorted by
+opstamp, `skip_to` + `apply_deletes` turn a segment under construction into a finished segment
+whose alive bits are the opstamp rule for the deletes before its cursor, `advance_deletes` keeps
+that, and a commit (target beyond every queued delete) makes the bits the rule over the whole
+queue. -/
+theorem C02_segment_steps_sound (log : List (DelOp α)) (hs : SortedLog log) :
+    (∀ sg, BuildOK log sg → SegOK log (finalize log sg))
+    ∧ (∀ sg target, SegOK log sg → SegOK log (advance log target sg))
+    ∧ (∀ sg target, SegOK log sg → (∀ del ∈ log, del.op ≤ target) →
+        ∀ d ∈ (advance log target sg).docs, d.alive = !dead log (d.doc, d.op)) :=
+  ⟨fun sg h => finalize_segOK log sg hs h, fun sg t h => advance_segOK log t sg h,
+   fun sg t h ht => (advance_full log t sg h ht).2⟩
+
+/-! ## opstamps -/
+
+/-- **C02_opstamp_monotone_partial.**  In every run as in `C02_commit_refines_replay_partial`
+(so: `delete_all_documents`, which reverts the stamper, only in clean states), a `commit` returns
+an opstamp larger than that of every document and every delete operation in the system, and that
+opstamp and the payload are what `meta.json` holds afterwards.  (`commit_opstamp()` is *not*
+that value: `C02_commit_opstamp_counterexample`.) -/
+theorem C02_opstamp_monotone_partial [DecidableEq α] (n : Nat) (es : List (Event α)) (s s' : WState α)
+    (p : Option Nat) (o : Nat)
+    (hrun : run (WState.init n) es = some s) (hok : okRun (WState.init n) es)
+    (hc : step s (.commit p) = some (s', o)) :
+    (∀ q ∈ allPairs s, q.2 < o) ∧ (∀ del ∈ s.log, del.op < o)
+      ∧ s'.metas.opstamp = o ∧ s'.metas.payload = p ∧ s'.stamper = o + 1 := by
+  have hinv := inv_run (WState.init n) s SpecState.init es (inv_init n) hok hrun
+  simp only [step] at hc
+  split at hc
+  · simp only [Option.some.injEq, Prod.mk.injEq] at hc
+    obtain ⟨rfl, rfl⟩ := hc
+    exact ⟨hinv.pairsLt, hinv.logLt, rfl, rfl, rfl⟩
+  · cases hc
 
 /-! ## rollback -/
 
@@ -192,6 +286,21 @@ example :
        .register, .register, .mergeStart [0, 1] true, .commit (some 9), .mergeEnd 0, .add 6, .rollback]
     (run (WState.init 3) es).map published = some [5, 1, 3]   -- a permutation: the merge reordered
       ∧ (replay (history es)).committed = [1, 3, 5] := by decide
+-- the hypotheses of the refinement theorem hold on that run up to the merge (plain events), and
+-- on a run with a clean delete_all_documents
+example :
+    let es : List (Event Nat) :=
+      [.add 1, .add 2, .recv 1, .del (fun d => d == 2 || d == 3), .add 3, .recv 1, .recv 2, .cut 1,
+       .batch [.add 4, .del (fun d => d == 4 || d == 5), .add 5], .register, .recv 0, .cut 0, .cut 2,
+       .register, .register, .commit (some 9), .add 6, .rollback]
+    es.all plainEvent = true ∧ (run (WState.init 3) es).map published = some [1, 5, 3] := by decide
+example : cleanState (WState.init 2 : WState Nat) := by
+  refine ⟨rfl, rfl, rfl, rfl, ?_⟩
+  intro w hw
+  simp only [WState.init, List.mem_replicate] at hw
+  rw [hw.2]
+example : cleanFrom (CState.init : CState Nat) [some (.add 1), some (.commit none), some .rollback, some .deleteAll] := by
+  simp [cleanFrom, cstep, CState.init]
 example : processed 5 [⟨3, fun d => d == (1 : Nat)⟩, ⟨5, fun _ => true⟩, ⟨6, fun _ => true⟩] ≠ [] := by
   simp [processed]
 example : ∃ s : WState Nat, s.metas.segs ≠ [] ∧ s.channel ≠ [] :=
